@@ -374,6 +374,114 @@ example : (run ⟨false, false, true⟩ St.init goodTrace).groupAck = 3 ∧ (run
     (fileRows (run ⟨false, false, true⟩ St.init goodTrace)).length = 4 ∧ (run ⟨false, false, true⟩ St.init goodTrace).gcLow = 2 := by decide
 example : Resolves (run ⟨false, false, true⟩ St.init goodTrace) := resolves_partial _ _ (by decide)
 
+/-- the steps after a completed dictionary flush keep "no name exists only in memory" -/
+theorem quiet_step (cfg : Cfg) (st : St) (e : Ev)
+    (he : e = .indexPrepare ∨ e = .indexFlush ∨ e = .freeze ∨ e = .dataCommit ∨ e = .ackCallback)
+    (hr : st.phase = .running)
+    (hq : st.metric.pending = false ∧ st.tagv.pending = false ∧ st.index.pending = false) :
+    (step cfg st e).phase = .running ∧ (step cfg st e).metric.pending = false ∧
+    (step cfg st e).tagv.pending = false ∧ (step cfg st e).index.pending = false := by
+  obtain ⟨q1, q2, q3⟩ := hq
+  have keyP : ∀ {α : Type} [DecidableEq α] (d : Dict α), d.pending = false → (d.prepare cfg).pending = false := by
+    intro α _ d hd
+    cases hm : d.mutab with
+    | cons a l => simp [Dict.pending, hm] at hd
+    | nil =>
+      cases hi : d.immut with
+      | none => simp [Dict.prepare, Dict.pending, Dict.immList, hi, hm]
+      | some l =>
+        cases l with
+        | nil => cases hs : cfg.swapOnEmpty <;> simp [Dict.prepare, Dict.pending, Dict.immList, hi, hm, hs]
+        | cons a l => simp [Dict.pending, Dict.immList, hi, hm] at hd
+  have keyF : ∀ {α : Type} [DecidableEq α] (d : Dict α), d.pending = false → d.flush.pending = false := by
+    intro α _ d hd
+    cases hi : d.immut with
+    | none => simpa [Dict.flush, hi] using hd
+    | some l =>
+      cases l with
+      | nil => simpa [Dict.flush, hi] using hd
+      | cons a l => simp [Dict.pending, Dict.immList, hi] at hd
+  rcases he with rfl | rfl | rfl | rfl | rfl
+  · simp only [step, whenRunning, hr, if_true]; exact ⟨trivial, q1, q2, keyP _ q3⟩
+  · simp only [step, whenRunning, hr, if_true]; exact ⟨trivial, q1, q2, keyF _ q3⟩
+  · simp only [step, whenRunning, hr, if_true]
+    unfold doFreeze
+    split
+    · split
+      · exact ⟨hr, q1, q2, q3⟩
+      · exact ⟨hr, q1, q2, q3⟩
+    · exact ⟨hr, q1, q2, q3⟩
+  · simp only [step, whenRunning, hr, if_true]
+    unfold doDataCommit
+    split
+    · split
+      · exact ⟨hr, q1, q2, q3⟩
+      · exact ⟨hr, q1, q2, q3⟩
+    · exact ⟨hr, q1, q2, q3⟩
+  · simp only [step, whenRunning, hr, if_true]
+    unfold doAckCallback
+    split
+    · split
+      · rename_i fz _ _
+        cases hc : fz.captured with
+        | none => simp only [ackOpt]; exact ⟨hr, q1, q2, q3⟩
+        | some x => simp only [ackOpt, ackTo]; split <;> exact ⟨hr, q1, q2, q3⟩
+      · exact ⟨hr, q1, q2, q3⟩
+    · exact ⟨hr, q1, q2, q3⟩
+
+/-- GRACEFUL SHUTDOWN keeps the discipline: from any running state without a dictionary flush in
+progress, the events of `database.Close` in the code's order (metadata, index, index again, then
+`dataFamily.Close`: pending immutable memory database, then the mutable one) satisfy `Disciplined`
+— so by `resolves_partial` a crash at ANY point inside the shutdown leaves only data whose names are
+durable. (The same events with the shards closed before the metadata flush do not:
+`Neg.shutdown_data_first_unresolved`.) -/
+theorem shutdown_order_is_disciplined (cfg : Cfg) (st : St) (hr : st.phase = .running)
+    (h1 : st.metric.immut = none) (h2 : st.tagv.immut = none) (h3 : st.index.immut = none) :
+    Disciplined cfg st shutdownRound := by
+  have h5 := flush_prefix_establishes cfg st hr h1 h2 h3
+  simp only [run, List.foldl] at h5
+  have r1 : (step cfg st .metaPrepare).phase = .running := by simp only [step, whenRunning, hr, if_true]
+  have r2 : (step cfg (step cfg st .metaPrepare) .metaFlushMetric).phase = .running := by
+    simp only [step, whenRunning, hr, if_true]
+  have r3 : (step cfg (step cfg (step cfg st .metaPrepare) .metaFlushMetric) .metaFlushTagv).phase = .running := by
+    simp only [step, whenRunning, hr, if_true]
+  -- the metadata part of the prefix is already complete after the third event
+  have m3 : (step cfg (step cfg (step cfg st .metaPrepare) .metaFlushMetric) .metaFlushTagv).metric.pending = false ∧
+      (step cfg (step cfg (step cfg st .metaPrepare) .metaFlushMetric) .metaFlushTagv).tagv.pending = false := by
+    have e1 : (step cfg (step cfg (step cfg (step cfg (step cfg st .metaPrepare) .metaFlushMetric) .metaFlushTagv) .indexPrepare) .indexFlush).metric
+        = (step cfg (step cfg (step cfg st .metaPrepare) .metaFlushMetric) .metaFlushTagv).metric := by
+      simp only [step, whenRunning, hr, if_true]
+    have e2 : (step cfg (step cfg (step cfg (step cfg (step cfg st .metaPrepare) .metaFlushMetric) .metaFlushTagv) .indexPrepare) .indexFlush).tagv
+        = (step cfg (step cfg (step cfg st .metaPrepare) .metaFlushMetric) .metaFlushTagv).tagv := by
+      simp only [step, whenRunning, hr, if_true]
+    exact ⟨e1 ▸ h5.1, e2 ▸ h5.2.1⟩
+  have r4 : (step cfg (step cfg (step cfg (step cfg st .metaPrepare) .metaFlushMetric) .metaFlushTagv) .indexPrepare).phase = .running := by
+    simp only [step, whenRunning, hr, if_true]
+  have r5 : (step cfg (step cfg (step cfg (step cfg (step cfg st .metaPrepare) .metaFlushMetric) .metaFlushTagv) .indexPrepare) .indexFlush).phase = .running := by
+    simp only [step, whenRunning, hr, if_true]
+  -- from here on every step keeps the three dictionaries quiet
+  have q6 := quiet_step cfg _ .indexPrepare (Or.inl rfl) r5 h5
+  have q7 := quiet_step cfg _ .indexFlush (Or.inr (Or.inl rfl)) q6.1 q6.2
+  have q8 := quiet_step cfg _ .dataCommit (Or.inr (Or.inr (Or.inr (Or.inl rfl)))) q7.1 q7.2
+  have q9 := quiet_step cfg _ .ackCallback (Or.inr (Or.inr (Or.inr (Or.inr rfl)))) q8.1 q8.2
+  simp only [shutdownRound, closeEvs, List.cons_append, List.nil_append, Disciplined, okAt, and_true, true_and,
+    implies_true]
+  refine ⟨fun _ => m3, fun _ => ⟨h5.1, h5.2.1⟩, fun _ _ _ => q9.2⟩
+
+/-- non-vacuity: writes, a failed data flush (freeze only), more writes, shutdown, restart -/
+def shutdownTrace : List Ev :=
+  [.append 0 0] ++ applyRound ++ [.metaPrepare, .metaFlushMetric, .metaFlushTagv, .indexPrepare, .indexFlush, .freeze] ++
+  [.append 1 1] ++ applyRound ++ shutdownRound ++ [.crash, .recover, .rewind]
+
+example : Disciplined ⟨true, true, true⟩ St.init shutdownTrace := by decide
+example : (run ⟨true, true, true⟩ St.init shutdownTrace).groupAck = 1 ∧ (run ⟨true, true, true⟩ St.init shutdownTrace).stored = some 1 ∧
+    (fileRows (run ⟨true, true, true⟩ St.init shutdownTrace)).length = 2 ∧ Resolves (run ⟨true, true, true⟩ St.init shutdownTrace) := by decide
+
+/-- a round whose index flush fails and which is ABORTED there: nothing is flushed or acknowledged,
+the entry is replayed after a crash -/
+example : let st := run ⟨true, true, true⟩ St.init ([.append 0 0] ++ applyRound ++ failedIndexRound ++ [.crash, .recover, .rewind])
+    st.groupAck = -1 ∧ st.files = [] ∧ st.consumed = -1 ∧ Resolves st := by decide
+
 /-- non-vacuity of `replay_complete`: a crash with two unapplied / unflushed entries; two rounds of
 the replica loop bring both back -/
 def lossyTrace : List Ev :=
@@ -512,6 +620,44 @@ theorem recovery_keeps_the_logs_leader :
     localReplicatorLeader = ["int32(channel.State.Leader)"] ∧
     localReplicaLeaderArgs = ["r.leader, sequence", "r.leader, sequence", "lr.leader, func"] := by decide
 
+/-- code step of the shutdown path -> model events -/
+def shutdownEv : String → List Ev
+  | "db.flushMeta" => [.metaPrepare, .metaFlushMetric, .metaFlushTagv]
+  | "thisShard.FlushIndex" => [.indexPrepare, .indexFlush]
+  | "s.flushIndex" => [.indexPrepare, .indexFlush]
+  | "family.Close" => closeEvs
+  | _ => []
+
+open LinVerif.Generated.C07 in
+/-- graceful shutdown in source order, `engine.Close` → `database.Close` → `shard.Close` →
+`intervalSegment.Close` → `segment.Close` → `dataFamily.Close`, is the model's `shutdownRound`:
+the database metadata is flushed BEFORE any shard is closed, the shard's index before its
+families' data — the order under which `shutdown_order_is_disciplined` holds. -/
+theorem shutdown_is_meta_index_data :
+    (inlineCall (inlineCall (inlineCall (inlineCall engineCloseCalls "db.Close" databaseCloseCalls)
+        "thisShard.Close" shardCloseCalls) "segment.Close" intervalSegmentCloseCalls)
+        "segment.Close" segmentCloseCalls).flatMap shutdownEv = shutdownRound ∧
+    databaseCloseCalls.filter (fun s => s ∈ ["db.flushMeta", "thisShard.FlushIndex", "thisShard.Close"])
+      = ["db.flushMeta", "thisShard.FlushIndex", "thisShard.Close"] ∧
+    shardCloseCalls.filter (fun s => s ∈ ["s.flushIndex", "segment.Close"]) = ["s.flushIndex", "segment.Close"] := by
+  decide
+
+open LinVerif.Generated.C07 in
+/-- every step of a flush round (and of the shutdown) aborts the round when it fails: the error
+branch of `if err ... := step(); err != nil` ends by returning the error (or, in the two functions
+without result, by returning), in `shard.FlushIndex` through the named result WITHOUT a `:=`
+shadow; so no family data is flushed and no log acknowledged after a failed metadata / index flush
+(the model's `failedIndexRound` has no data events) -/
+theorem flush_step_error_aborts_round :
+    shardFlushIndexGuards = ["s.flushIndex|=|abort"] ∧
+    shardFlushIndexInnerGuards = ["<-ch|:=|abort"] ∧
+    flushShardGuards = ["request.shard.FlushIndex|:=|abort", "family.Flush|:=|continue"] ∧
+    doFlushGuards = ["request.db.FlushMeta|:=|abort"] ∧
+    databaseFlushMetaGuards = ["db.flushMeta|:=|abort"] ∧
+    databaseFlushMetaInnerGuards = ["<-ch|:=|abort"] ∧
+    databaseCloseGuards.head? = some "db.flushMeta|:=|abort" ∧
+    shardCloseGuards.head? = some "s.flushIndex|:=|abort" := by decide
+
 /-- the configuration the driver runs the model with: the PrepareFlush shape found in /repo -/
 def codeCfg : Cfg :=
   ⟨LinVerif.Generated.C07.swapOnEmpty, LinVerif.Generated.C07.atomicAcquire, LinVerif.Generated.C07.ignoreExact⟩
@@ -565,6 +711,30 @@ theorem window_not_disciplined (cfg : Cfg) : ¬ Disciplined cfg St.init windowTr
   | mk a b c => cases a <;> cases b <;> cases c <;> decide
 
 theorem wedge_not_disciplined : ¬ Disciplined ⟨false, false, true⟩ St.init wedgeTrace := by decide
+
+/-- SHUTDOWN IN THE WRONG ORDER (shards closed before the database metadata is flushed): the process
+dies inside the shutdown after the family's data file and before the metadata flush. -/
+def shutdownDataFirstTrace : List Ev :=
+  [.append 0 0] ++ applyRound ++ [.indexPrepare, .indexFlush] ++ closeEvs ++ [.crash, .recover, .rewind]
+
+theorem shutdown_data_first_unresolved (cfg : Cfg) :
+    let st := run cfg St.init shutdownDataFirstTrace
+    (⟨0, 0, 0⟩ : Row) ∈ fileRows st ∧ st.groupAck = 0 ∧ st.stored = some 0 ∧
+    0 ∉ st.metric.dur ∧ ¬ Resolves st ∧ ¬ Disciplined cfg St.init shutdownDataFirstTrace := by
+  cases cfg with
+  | mk a b c => cases a <;> cases b <;> cases c <;> decide
+
+/-- A ROUND THAT GOES ON AFTER A FAILED INDEX FLUSH (`FlushIndex` swallowing the error): data file and
+acknowledgement follow an index that was only prepared; crash before the next index flush. -/
+def dataAfterFailedIndexTrace : List Ev :=
+  [.append 0 0] ++ applyRound ++ failedIndexRound ++ [.freeze, .dataCommit, .ackCallback, .crash, .recover, .rewind]
+
+theorem data_after_failed_index_flush_unresolved (cfg : Cfg) :
+    let st := run cfg St.init dataAfterFailedIndexTrace
+    (⟨0, 0, 0⟩ : Row) ∈ fileRows st ∧ st.groupAck = 0 ∧ (0, 0) ∉ st.index.dur ∧
+    ¬ Resolves st ∧ ¬ Disciplined cfg St.init dataAfterFailedIndexTrace := by
+  cases cfg with
+  | mk a b c => cases a <;> cases b <;> cases c <;> decide
 
 /-- WITNESS 3 (writer registered too late): entry 1's `WriteRows` has looked its memory database
 up; before it registers as writer a complete `Flush` of that database runs (it holds entry 0 and
